@@ -145,6 +145,10 @@ def make_service(P, registry):
             # stateless (no 'armed' slot): safe for several clients at once
             raise build(registry[clsname], tuple(args), dict(attrs))
 
+        def raise_shared(self):
+            # one exception OBJECT for every caller (a cached failure, a module-level singleton error): several workers report it at once
+            raise SHARED_FAILURE.with_traceback(None)
+
         def echo(self, token):
             return token
 
@@ -336,6 +340,10 @@ def check_unserialisable(fx, p, sername, extra, clsname, rec, token, registry):
         rec.violation("next-call-fails", "call after unserialisable remote %s failed: %r" % (clsname, x), pay)
 
 
+SHARED_FAILURE = LookupError("shared failure", 7)
+SHARED_FAILURE.code = ["E", 42]
+
+
 def concurrent_phase(fx, sername, registry, rec, r):
     """several clients raise exceptions at the same time (their replies are serialised by different server workers at once):
     every caller still gets exactly its own exception"""
@@ -362,10 +370,23 @@ def concurrent_phase(fx, sername, registry, rec, r):
                         rec.count("concurrent_exceptions_checked")
                         if not ok:
                             problems.append("client %d call %d: raised %s%r %r remotely, the caller got %r" % (tid, n, clsname, tuple(args), attrs, got))
+                    # ... and one exception object that all of them are handed at the same time
+                    try:
+                        p.raise_shared()
+                        got = ("returned",)
+                    except Exception as x:
+                        tb = getattr(x, "_pyroTraceback", None)
+                        got = (type(x), tuple(x.args), {k: v for k, v in vars(x).items() if not k.startswith("_pyro")},
+                               bool(tb) and isinstance(tb, list) and all(isinstance(t, str) for t in tb) and "raise_shared" in "".join(tb))
+                    ok = got[0] is LookupError and gen.deep_eq(list(got[1]), ["shared failure", 7]) and gen.deep_eq(got[2], {"code": ["E", 42]}) and got[3]
+                    with lock:
+                        rec.count("concurrent_shared_exception_checked")
+                        if not ok:
+                            problems.append("client %d call %d: the method raised the shared LookupError('shared failure', 7) with code=['E', 42]; the caller got %r (class, args, attributes, remote traceback present)" % (tid, n, got))
         except Exception as x:
             with lock:
                 problems.append("client %d could not work: %r" % (tid, x))
-    yieldinj.enable(("Pyro5/serializers.py", "Pyro5/protocol.py"), 0.02, rec.seed * 17 + 3, max_sleep=0.001)
+    yieldinj.enable(("Pyro5/serializers.py", "Pyro5/protocol.py", "Pyro5/server.py"), 0.02, rec.seed * 17 + 3, max_sleep=0.001)
     try:
         ts = [threading.Thread(target=client, args=(i,), daemon=True) for i in range(5)]
         for t in ts:
